@@ -514,16 +514,43 @@ _K17_LET = r'\{\s*(?:let|const)\s+\w+\s*=\s*([^;{}]*[-+*/%<>&|^!~=][^;{}]*)[;\s]
 _K17_EFFECT = re.compile(r'[\w$)\]]\s*\(|[\w$)\]]\s*\??\.\s*[A-Za-z_$#]|[\w$)\]]\s*\[|(?<![=!<>])=(?![=>])|\+\+|--|\bnew\b|\bdelete\b|`|\byield\b|\bawait\b')
 
 
+def _void_operands(src):
+    """operands of void that are not a bare literal/identifier/call: the parenthesised group, or the unary/class/... phrase up to
+    the next , ; ) } at the same nesting level"""
+    for m in re.finditer(_K17_VOID, src):
+        i = m.start(1)
+        depth = 0
+        j = i
+        while j < len(src):
+            ch = src[j]
+            if ch in '([{':
+                depth += 1
+            elif ch in ')]}':
+                if depth == 0:
+                    break
+                depth -= 1
+                if depth == 0 and src[i] == '(':
+                    j += 1
+                    break
+            elif ch in ',;\n' and depth == 0:
+                break
+            j += 1
+        yield src[i:j]
+
+
 def _k17(src, residual_only):
     """operator/class/literal expressions in discarded position.  residual_only: only those that are still dropped once
     hasSideEffects looks into operands (fix C01-K17), i.e. expressions without any call/member access/assignment/update/new"""
-    for rx in (_K17_VOID, _K17_IF, _K17_LET):
-        for m in re.finditer(rx, src):
-            if not residual_only:
-                return True
-            e = m.group(1)
-            if re.search(r'\bclass\b', e) or not _K17_EFFECT.search(e):
-                return True
+    exprs = list(_void_operands(src))
+    for rx in (_K17_IF, _K17_LET):
+        exprs += [m.group(1) for m in re.finditer(rx, src)]
+    for e in exprs:
+        if not residual_only:
+            return True
+        # (a keyword followed by a parenthesis is not a call)
+        e2 = re.sub(r'\b(void|typeof|in|instanceof|return|throw|case|of|else|do)\s*\(', ' (', e)
+        if re.search(r'\bclass\b', e) or not _K17_EFFECT.search(e2):
+            return True
     return False
 
 
